@@ -151,7 +151,10 @@ func (pkg EEDPackage) WriteTo(ch BytesChannel) error {
 	// x servername
 	// x procname
 	// 2 linenr
-	length := 11 + len(pkg.SQLState) + len(pkg.Msg) + len(pkg.ServerName) + len(pkg.ProcName)
+	// 4 msgnumber, 1 state, 1 class, 1 sqlstate length, 1 status,
+	// 2 transtate, 2 msg length, 1 servername length, 1 procname length,
+	// 2 linenr
+	length := 16 + len(pkg.SQLState) + len(pkg.Msg) + len(pkg.ServerName) + len(pkg.ProcName)
 
 	if err := ch.WriteUint16(uint16(length)); err != nil {
 		return fmt.Errorf("failed to write length: %w", err)
